@@ -1,7 +1,7 @@
 """C03 -- applying a Clifford map is a unitary conjugation (phase-exact homomorphism)."""
 import numpy as np
 from vlib import gen, dense as D
-from vlib.run import corr, do, impl, opt
+from vlib.run import norm, corr, do, impl, opt
 from vlib import impl_np as NP
 
 RULE = ('(valid map, optional mask, operand list): all 24 one-qubit maps x all operands (exhaustive), random valid maps N<=6 built by the model '
@@ -95,7 +95,20 @@ def c_state_corr(ctx, args):
     return corr(ctx, be, 'state_transform', [m, opt(mask), t], [m, mask, t])
 
 
-CHECKS = {'tr_corr': c_tr_corr, 'tr_dense': c_tr_dense, 'embed_corr': c_embed_corr, 'masked_is_embedded': c_masked_is_embedded,
+def c_rotmap(ctx, args):
+    """the map of a rotation acts as the rotation: transform_by(clifford_rotation_map(G)) == rotate_by(G) on every operand (through the implementation; the two paths
+    share no arithmetic: the map path multiplies listed images, the rotation path adds one product phase)"""
+    be, g, l = args
+    I = impl(be).OPS
+    a = I['rotate'](g, None, l)
+    m = I['rotation_map'](g)
+    b = I['transform'](m, None, l)
+    if norm(a) != norm(b):
+        return {'kind': 'oracle', 'where': be + ':transform_by(clifford_rotation_map(G)) differs from rotate_by(G)', 'observed': norm(b), 'expected': norm(a), 'generator': g, 'tags': ['rotmap']}
+    return None
+
+
+CHECKS = {'rotmap': c_rotmap, 'tr_corr': c_tr_corr, 'tr_dense': c_tr_dense, 'embed_corr': c_embed_corr, 'masked_is_embedded': c_masked_is_embedded,
           'state_corr': c_state_corr}
 
 
@@ -135,3 +148,11 @@ def run(ctx):
         mask = None if n == N else gen.rmask(rng, N, n)[0]
         be = rng.choice(backends)
         do(ctx, 'state_corr', [be, gen.rmap(rng, ctx.model, n), mask, gen.rtableau(rng, ctx.model, N)], nontrivial=(be, 's', ctx.res.evaluations))
+    # rotation maps against rotations, generators and operands meeting on several sites (N up to 6)
+    for _ in range(int(200 * B)):
+        n = rng.randint(1, 6)
+        g = gen.rpauli(rng, n, herm=True, nonzero=True)
+        if rng.random() < 0.5:          # heavy generators and operands: all sites non-trivial
+            g = [[b for _ in range(n) for b in rng.choice([(1, 0), (0, 1), (1, 1)])], g[1]]
+        l = gen.rplist(rng, n, 4) + [[[b for _ in range(n) for b in rng.choice([(1, 0), (0, 1), (1, 1)])], rng.randint(0, 3)]]
+        do(ctx, 'rotmap', [rng.choice(backends), g, l], nontrivial=('rm', ctx.res.evaluations))
